@@ -155,6 +155,21 @@ Proof.
   intros [_ H]. specialize (H (10, 11)). vm_compute in H. discriminate.
 Qed.
 
+(* (3) without "a shared element is described identically" the result DOES depend on the merge order: the
+   combined model keeps the class / plain properties of whichever model was merged first *)
+Definition P1 : adm := mkAdm 1 [(10, mkA 1 [(5, 6)] None None)] [].
+Definition P2 : adm := mkAdm 2 [(10, mkA 1 [(5, 7)] None None); (11, mkA 2 [] None (Some 8))] [((10, 11), (4, []))].
+Theorem order_dependent_refuted :
+  exists A B C C', wf_adm A /\ wf_adm B /\ one_speaker A B /\
+                   merge_all [A; B] = Some C /\ merge_all [B; A] = Some C' /\ ~ eqv C C'.
+Proof.
+  exists P1, P2, (the (merge_all [P1; P2])), (the (merge_all [P2; P1])).
+  split; [apply wf_admb_sound; vm_compute; reflexivity|]. split; [apply wf_admb_sound; vm_compute; reflexivity|].
+  split; [apply one_speakerb_sound; vm_compute; reflexivity|].
+  split; [vm_compute; reflexivity|]. split; [vm_compute; reflexivity|].
+  intros [H _]. specialize (H 10). vm_compute in H. destruct H as (_ & H & _). discriminate.
+Qed.
+
 (* non-vacuity instances *)
 Lemma ex_order :
   exists C C', merge_all [A1; A2; A3] = Some C /\ merge_all [A3; A2; A1] = Some C' /\
